@@ -483,11 +483,12 @@ def r10_5(prog, rep):
                  "text depends on where the input was cut" % bad[0][2])
     else:
         rep.ok(rid, "esccpy/no-decision-on-piece-end", e.loc(), "the piece length only bounds the copy loop (%d loop test%s)" % (nloop, "" if nloop == 1 else "s"))
-    ip = prog.fn("_ical_init_push", "evical.c")
+    # the helper that decides whether a parse is started — or, when it has been folded into its only caller, the push entry point
+    ip = prog.fn("_ical_init_push", "evical.c") if prog.has_fn("_ical_init_push", "evical.c") else prog.fn("echs_evical_push", "evical.c")
     icfg = ip.cfg
     lens = [p_["n"] for p_ in ip.params if p_.get("t") in ("size_t", "unsigned long", "unsigned int")]
     if not lens:
-        raise AnalysisBroken("_ical_init_push: length parameter not found")
+        raise AnalysisBroken("%s: length parameter not found" % ip.name)
     ln = lens[0]
     bad = []
     for b in icfg.blocks:
@@ -503,10 +504,10 @@ def r10_5(prog, rep):
             elif len(a) == 5 and any(nn.get("k") == "ref" and nn.get("n") == ln for x_ in (a[3], a[4]) for nn in walk(x_)):
                 bad.append((icfg.blocks[b].elems[-1].get("line"), "%s %s %s" % (a[1], a[0], a[2])))
     if bad:
-        rep.fail(rid, "_ical_init_push/first-piece-length-free", ip.loc(bad[0][0]), "whether a parse is started depends on the length of the first piece (`%s`): "
+        rep.fail(rid, "%s/first-piece-length-free" % ip.name, ip.loc(bad[0][0]), "whether a parse is started depends on the length of the first piece (`%s`): "
                  "the same calendar fed in shorter pieces is refused" % bad[0][1])
     else:
-        rep.ok(rid, "_ical_init_push/first-piece-length-free", ip.loc(), "a parse is started for every non-empty first piece")
+        rep.ok(rid, "%s/first-piece-length-free" % ip.name, ip.loc(), "a parse is started for every non-empty first piece")
 
 
 def r10_6(prog, rep):
